@@ -28,7 +28,7 @@ ClampA(n, lo, hi) == IF n < lo THEN lo ELSE IF n > hi THEN hi ELSE n
 
 -----------------------------------------------------------------------------
 NoObs ==
-    [run |-> -1, cfg |-> [storeKind |-> "none"], active |-> FALSE,
+    [run |-> -1, cfg |-> [storeKind |-> "none"], cfg0 |-> [storeKind |-> "none"], active |-> FALSE,
      b |-> [api |-> "none"],          \* the Begin payload of the ceremony in progress / just finished
      snap0 |-> <<>>,                  \* the store when the ceremony began
      snap |-> <<>>,                   \* the latest snapshot seen
@@ -39,9 +39,11 @@ NoObs ==
 
 Observe(o, e) ==
     CASE e.ev = "Reset" ->
-           [NoObs EXCEPT !.run = e.run, !.cfg = e.cfg, !.snap = e.store, !.snap0 = e.store,
-                         !.prevRun = IF o.run >= 0 THEN [valid |-> TRUE, run |-> o.run, cfg |-> o.cfg, cers |-> o.cers]
+           [NoObs EXCEPT !.run = e.run, !.cfg = e.cfg, !.cfg0 = e.cfg, !.snap = e.store, !.snap0 = e.store,
+                         !.prevRun = IF o.run >= 0 THEN [valid |-> TRUE, run |-> o.run, cfg |-> o.cfg0, cers |-> o.cers]
                                      ELSE o.prevRun]
+      [] e.ev = "Reconfig" ->       \* the environment changed between two ceremonies
+           [o EXCEPT !.cfg = e.d.cfg]
       [] e.ev = "Begin" ->
            [o EXCEPT !.active = TRUE, !.b = e.d, !.snap0 = o.snap, !.evs = <<>>, !.last = "Begin"]
       [] e.ev = "Store" ->
@@ -145,7 +147,7 @@ C04_NoDisclosureBeforeConsent(o) ==
 \* exists.  Judged on consecutive runs that differ only in the store content.
 \* the ceremony of the previous run at the same position as the one just finished
 PrevCer(o) == o.prevRun.cers[Len(o.cers)]
-HasPrevCer(o) == o.prevRun.valid /\ o.prevRun.cfg = o.cfg /\ Len(o.cers) >= 1 /\ Len(o.cers) <= Len(o.prevRun.cers)
+HasPrevCer(o) == o.prevRun.valid /\ o.prevRun.cfg = o.cfg0 /\ Len(o.cers) >= 1 /\ Len(o.cers) <= Len(o.prevRun.cers)
 SameButStore(o) == HasPrevCer(o) /\ Len(o.cers) = 1 /\ PrevCer(o).b = o.b
 C04_NonInterference(o) ==
     (Finished(o) /\ SameButStore(o) /\ ConsentMissing(o) /\ ~Cancelled(o) /\ ~Crashed(o)) =>
